@@ -1034,7 +1034,12 @@ impl Database {
                 } else {
                     OwnedValue::Null
                 };
+                // SQL: a scalar subquery must not return more than one row
+                let more_than_one = executor.next()?.is_some();
                 executor.close()?;
+                if more_than_one {
+                    bail!("scalar subquery returned more than one row");
+                }
                 Ok(result)
             } else {
                 Ok(OwnedValue::Null)
